@@ -186,6 +186,9 @@ int disasm_cp1610(
             }
           }
 
+          // No form of the jump has these bb/ii fields.
+          if (j == 6) { strcpy(instruction, "???"); }
+
           return 6;
         }
         case CP1610_OP_JR:
